@@ -3,7 +3,10 @@
   dumper equals what the specification requires.  These are re-checked on every run, so a changed
   constant, a dropped table row or a moved flag bit breaks a proof obligation immediately.
 -/
-import Btcdeb
+import Btcdeb.Generated.Tables
+import Btcdeb.Spec.Opcode
+import Btcdeb.Spec.Types
+import Btcdeb.Spec.Limits
 namespace Btcdeb.Proofs.Tables
 open Btcdeb
 
